@@ -21,7 +21,13 @@ RULE = (
     "quantity_cls, module_class, group_class, object_class}. distinct = "
     "(pairing, seed, subset); non-trivial = at least one substitute is on"
 )
-PAIRINGS = ("PVL", "ODL", "PDS3", "ISIS", "default")
+PAIRINGS = ("PVL", "ODL", "PDS3", "ISIS", "default",
+            # a grammar and a decoder of different dialects given together
+            "PVLGrammar+OmniDecoder", "PDSGrammar+ODLDecoder",
+            "ISISGrammar+plain-OmniDecoder")
+# which dialect the documents are written in
+READER_OF = {"PVLGrammar+OmniDecoder": "PVL", "PDSGrammar+ODLDecoder": "PDS3",
+             "ISISGrammar+plain-OmniDecoder": "ISIS"}
 
 
 def nshards(tier):
@@ -105,11 +111,15 @@ def build_parser(pvl, pairing, subs, classes):
     if pairing == "ISIS":
         g = G.ISISGrammar()
         return P.OmniParser(grammar=g, decoder=D.OmniDecoder(grammar=g, **dk), **pk)
+    if pairing == "PDSGrammar+ODLDecoder":
+        return P.ODLParser(grammar=G.PDSGrammar(), decoder=D.ODLDecoder(**dk), **pk)
+    if pairing == "ISISGrammar+plain-OmniDecoder":
+        return P.OmniParser(grammar=G.ISISGrammar(), decoder=D.OmniDecoder(**dk), **pk)
     return None  # default: through pvl.loads keyword arguments
 
 
 def load_with(pvl, pairing, text, subs, classes):
-    if pairing == "default":
+    if pairing in ("default", "PVLGrammar+OmniDecoder"):
         D = pvl.decoder
         dk = {}
         if "real" in subs:
@@ -117,8 +127,10 @@ def load_with(pvl, pairing, text, subs, classes):
         if "quantity" in subs:
             dk["quantity_cls"] = RecQ
         kw = {}
-        if dk:
+        if dk or pairing != "default":
             kw["decoder"] = D.OmniDecoder(**dk)
+        if pairing != "default":
+            kw["grammar"] = pvl.grammar.PVLGrammar()
         SubModule, SubGroup, SubObject = classes
         if "module" in subs:
             kw["module_class"] = SubModule
@@ -214,10 +226,11 @@ def snap18(x):
 def case(rec, pvl, pairing, key, classes):
     rng = random.Random(key)
     while True:
-        doc = gt.gen_document(rng, pairing, max_top=5)
+        doc = gt.gen_document(rng, READER_OF.get(pairing, pairing), max_top=5)
         if not any(c == "seq-inside-set" for c, _ in doc.meta):
             break
-    text = gt.render(doc.tokens, gt.gen_layout(rng, doc.tokens, pairing, "wild"))
+    text = gt.render(doc.tokens, gt.gen_layout(rng, doc.tokens,
+                                               READER_OF.get(pairing, pairing), "wild"))
     names = ["real", "quantity", "module", "group", "object"]
     r = rng.random()
     if r < 0.25:
@@ -267,8 +280,10 @@ def case(rec, pvl, pairing, key, classes):
         lits = [t.text for t in doc.tokens if t.kind == gt.VAL and
                 (t.cls or "").startswith("real")]
         rec.count("real_text_checks")
-        if not (set(seen["reals"]) <= set(lits) and (has_set or
-                {float(x) for x in lits} == {float(x) for x in seen["reals"]})):
+        # without sets the walk visits the reals in textual order: the texts
+        # must be the written ones, one for one
+        if not (set(seen["reals"]) <= set(lits) and
+                (has_set or seen["reals"] == lits)):
             rec.violation(CHECK, pairing, "real-text-altered-or-missing",
                           {}, wit, f"real_cls saw {sorted(set(seen['reals']))}, "
                                    f"the text has {sorted(set(lits))}")
@@ -278,9 +293,8 @@ def case(rec, pvl, pairing, key, classes):
         want = {str(decimal.Decimal(x)) for x in lits}
         rec.count("decimal_digit_checks")
         # (equal Decimals written differently collapse inside a set)
-        ok = set(seen["decimals"]) <= want and (has_set or
-            {decimal.Decimal(x) for x in lits} ==
-            {decimal.Decimal(x) for x in seen["decimals"]})
+        ok = set(seen["decimals"]) <= want and (
+            has_set or seen["decimals"] == [str(decimal.Decimal(x)) for x in lits])
         if not ok:
             rec.violation(CHECK, pairing, "decimal-digits-lost", {}, wit,
                           f"{sorted(set(seen['decimals']))} vs {sorted(want)}")
@@ -289,9 +303,74 @@ def case(rec, pvl, pairing, key, classes):
                       wit, f"{snapshot(back)!r:.300} vs {snapshot(plain)!r:.300}")
 
 
+TWIN_FAMILIES = (("1.5", "1.50", "1.500", "15e-1", "0.15E1", "1.5e0"),
+                 ("0.0", "-0.0", "0.00", "0e0", "-0.00"),
+                 ("2.0", "2.00", "2.0e0", "20.0e-1", "2.000"))
+
+
+def twin_case(rec, pvl, pairing, key, classes):
+    """Numerically equal reals written differently, with identical units, at
+    every depth of one label: each must reach the real class with its own
+    text (nothing may hand back an earlier, equal value)."""
+    rng = random.Random(key)
+    lits = []
+
+    def q():
+        fam = rng.choice(TWIN_FAMILIES)
+        t = rng.choice(fam)
+        lits.append(t)
+        return t
+
+    u = rng.choice(("s", "deg", "m"))
+    lines = [f"T1 = {q()} <{u}>", f"T2 = {q()} <{u}>", f"T3 = {q()}",
+             f"T4 = ({q()} <{u}>, {q()} <{u}>, {q()}, {q()} <{u}>)",
+             "GROUP = G", f"  T5 = {q()} <{u}>", f"  T6 = ({q()}, ({q()}, {q()}))",
+             "  OBJECT = O", f"    T7 = {q()} <{u}>", f"    T8 = {q()} <{u}>",
+             "  END_OBJECT", "END_GROUP", f"T9 = {q()} <{u}>", "END"]
+    text = "\n".join(lines) + "\n"
+    for real in (RecReal, decimal.Decimal):
+        for with_q in (False, True):
+            subs = {"real": real}
+            if with_q:
+                subs["quantity"] = True
+            wit = {"pairing": pairing, "seed": key, "text": text,
+                   "substitutes": sorted(subs), "real": real.__name__}
+            rec.case((pairing, key, real.__name__, with_q), True)
+            rec.count("equal_twin_cases")
+            try:
+                got = load_with(pvl, pairing, text, subs, classes)
+            except Exception as e:
+                rec.violation(CHECK, pairing, "load-fails-only-with-substitutes",
+                              {"exc": type(e).__name__, "real": real.__name__,
+                               "quantity": with_q}, wit, f"{type(e).__name__}: {e}"[:300])
+                continue
+            problems, seen = [], {"reals": [], "decimals": []}
+            walk(rec, pvl, got, subs, classes, pairing, problems, 0, "top", seen)
+            for kind, where in problems[:3]:
+                rec.violation(CHECK, pairing, kind.split(":")[0],
+                              {"where": where, "which": kind.split(":")[-1]}, wit,
+                              f"{kind} at {where}")
+            if real is RecReal and seen["reals"] != lits:
+                rec.violation(CHECK, pairing, "real-text-altered-or-missing",
+                              {"equal_twins": True}, wit,
+                              f"real_cls saw {seen['reals']}, the text has {lits}")
+            if real is decimal.Decimal and \
+                    seen["decimals"] != [str(decimal.Decimal(x)) for x in lits]:
+                rec.violation(CHECK, pairing, "decimal-digits-lost",
+                              {"equal_twins": True}, wit,
+                              f"{seen['decimals']} vs {lits}")
+    # a reused parser/decoder must not remember values either: second text
+    # through the same decoder (C16 covers results in general; here the digits)
+
+
 def shard(i, n, tier, seed, rec, hb):
     pvl = common.import_pvl()
     classes = make_classes(pvl)
+    for pairing in PAIRINGS:
+        if pairing == "PDS3":
+            continue        # PDSLabelDecoder takes no real_cls
+        for j in range(i, 160 if tier == "quick" else 4000, n):
+            twin_case(rec, pvl, pairing, f"C18-twin-{seed}-{pairing}-{j}", classes)
     per = 1200 if tier == "quick" else 40000
     for pairing in PAIRINGS:
         for j in range(i, per, n):
